@@ -131,7 +131,7 @@ func init() {
 	for _, p := range []string{"C01", "C06", "C20"} {
 		props[p] = common.UniverseProperty(p, common.UniImpl{Load: loadV1, LookupChecks: lookupChecksV1, LoadHistory: loadHistoryV1, LoadHistoryLookups: loadHistoryV1L})
 	}
-	props["C11"] = common.LoadingProperty(common.UniImpl{Load: loadV1, LoadHistory: loadHistoryV1, LoadHistoryLookups: loadHistoryV1L, RequestTwice: requestTwiceV1})
+	props["C11"] = common.LoadingProperty(common.UniImpl{Load: loadV1, LoadHistory: loadHistoryV1, LoadHistoryLookups: loadHistoryV1L, RequestTwice: requestTwiceV1, RequestSeq: requestSeqV1})
 }
 
 // ---- C11: loading histories through the real v1 Builder (GOPATH mode on a scratch tree) ----
@@ -229,6 +229,28 @@ func loadHistoryV1L(prog *common.Program, initial []string, steps [][]string, lo
 		}
 	}
 	return snapshotUniverse(u), stable, b.FindPackages(), nil
+}
+
+// requestSeqV1 asks one Builder for the packages one after the other (AddDir) and returns the error of each request
+func requestSeqV1(prog *common.Program, pkgs []string) []error {
+	gopathMu.Lock()
+	defer gopathMu.Unlock()
+	root, err := writeGopath(prog)
+	if root != "" {
+		defer os.RemoveAll(root)
+	}
+	if err != nil {
+		return []error{err}
+	}
+	os.Setenv("GO111MODULE", "off")
+	os.Setenv("GOPATH", root)
+	build.Default.GOPATH = root
+	b := parser.New()
+	var errs []error
+	for _, pkg := range pkgs {
+		errs = append(errs, b.AddDir(pkg))
+	}
+	return errs
 }
 
 func requestTwiceV1(prog *common.Program, pkg string) (error, error) {
